@@ -12,7 +12,8 @@ struct Family {
   std::vector<int>     req_menu; // which of them the application may issue at top level
   std::vector<int>     replies, forges, advances, faults, setservers;
   std::vector<int>     reinit_variants = { 0 }; // 0 plain, 1 the configuration file is unreadable during it, 2 the file's content has changed
-  std::vector<int>     fault_skips = { 0 }; // an armed fault hits the (skip+1)-th call of its site
+  std::vector<int>     fault_skips = { 0 };
+  std::vector<int>     fault_skip_sites;   // sites the non-zero skip counts apply to (empty: all sites of the family) // an armed fault hits the (skip+1)-th call of its site
   unsigned             evmask = 0;
   unsigned             policy_mask = 0; // bit per ARES_VERIF_RAND_* purpose whose draws are enumerated
   int                  max_req = 2, max_depth = 4, max_dev = 1, max_cancel = 1, max_adv = 2, max_setsrv = 1, max_reinit = 1, max_forge = 1,
